@@ -174,8 +174,10 @@ pub async fn run(req: &J) -> J {
             }
             "set_policy" => {
                 // what varpulis-cli does at start-up from its command line
-                coordinator.write().await.scaling_policy = Some(ScalingPolicy {
-                    min_workers: 1, max_workers: 5, scale_up_threshold: 5.0, scale_down_threshold: 1.0, cooldown_secs: 60, webhook_url: None });
+                // (every coordinator of the cluster is started with the same configuration, the follower too)
+                let pol = ScalingPolicy { min_workers: 1, max_workers: 5, scale_up_threshold: 5.0, scale_down_threshold: 1.0, cooldown_secs: 60, webhook_url: None };
+                coordinator.write().await.scaling_policy = Some(pol.clone());
+                follower.scaling_policy = Some(pol);
             }
             "failover" => {
                 // the worker's heartbeats stopped; then the failure branch of the health loop runs (health_sweep + the
